@@ -107,6 +107,8 @@ var fixedLines = []string{
 	"+a\\\\b.\"q\".example.com,1.2.3.4",
 	"+\\303\\251.example.com,1.2.3.4",
 	"+\303\251.\\200\\377.example.com,1.2.3.4",
+	"+\303\211cole.EXAMPLE.com,1.2.3.4", // upper-case UTF-8 letter: keys are lower-cased A-Z only
+	"M\\303\\211.Example.com,ab",
 	"'example.com,a\\054b\\072c \\\\ \" \\000\\177\\200\\377 \303\251",
 	"'example.com:text, with comma:300",
 	"'example.com," + strings.Repeat("x", 127) + ",300",
@@ -208,7 +210,7 @@ type gen struct{ r *hlib.Rng }
 const lowAlpha = "abcdefghijklmnopqrstuvwxyz0123456789-_"
 
 var specials = [][]byte{{','}, {':'}, {'\\'}, {'"'}, {' '}, {'*'}, {0}, {1}, {0x7f}, {0x80}, {0xff}, {0xe9},
-	{0xc3, 0xa9}, {0xe2, 0x82, 0xac}, {0xc2, 0xad}, {0xf0, 0x9f, 0x98, 0x80}, {'\n'}, {'\t'}, {'\''}, {'=', 'A'}, {'%'}, {'/'}}
+	{0xc3, 0xa9}, {0xc3, 0x89}, {0xe2, 0x82, 0xac}, {0xc2, 0xad}, {0xf0, 0x9f, 0x98, 0x80}, {'\n'}, {'\t'}, {'\''}, {'=', 'A'}, {'%'}, {'/'}}
 
 func (g *gen) label() []byte {
 	r := g.r
